@@ -298,6 +298,32 @@ impl Default for Profile {
     }
 }
 
+/// child slot -> parent slot, as the server world has it now
+pub fn current_parents(sim: &Sim) -> std::collections::BTreeMap<String, String> {
+    let mut m = std::collections::BTreeMap::new();
+    let w = sim.project_server();
+    if let Some(world) = w["world"].as_object() {
+        for (e, v) in world {
+            if v["alive"] == json!(true) {
+                if let Some(p) = v["parent"].as_str().filter(|p| *p != "none") {
+                    m.insert(e.clone(), p.to_string());
+                }
+            }
+        }
+    }
+    m
+}
+
+/// F17's trigger: despawning `p` while a living entity that had `p` as relation target at the last
+/// tick has been detached or re-attached since (the client still knows it as a child of `p`).
+pub fn f17_trigger(sim: &Sim, parent_at_tick: &std::collections::BTreeMap<String, String>, p: &str) -> bool {
+    let now = current_parents(sim);
+    let w = sim.project_server();
+    parent_at_tick.iter().any(|(c, old)| {
+        old == p && now.get(c).map(String::as_str) != Some(p) && w["world"][c]["alive"] == json!(true)
+    })
+}
+
 /// One random run; returns the number of steps recorded.
 pub fn random_run<W: Write>(tr: &mut Trace<W>, cfg: Cfg, prof: &Profile, seed: u64, run: u64) -> Sim {
     let mut rng = Rng::new(seed);
@@ -314,6 +340,7 @@ pub fn random_run<W: Write>(tr: &mut Trace<W>, cfg: Cfg, prof: &Profile, seed: u
         }
     }
     let mut next_id: u32 = 0;
+    let mut parent_at_tick: std::collections::BTreeMap<String, String> = Default::default();
     for _ in 0..prof.steps {
         if prof.events && rng.chance(1, 3) {
             // event traffic
@@ -374,6 +401,7 @@ pub fn random_run<W: Write>(tr: &mut Trace<W>, cfg: Cfg, prof: &Profile, seed: u
         if rng.chance(1, 14) {
             // acknowledged state in the middle of the run, then the history goes on
             tr.sync(&mut sim);
+            parent_at_tick = current_parents(&sim);
             continue;
         }
         let e = rng.pick(&ents).clone();
@@ -390,7 +418,14 @@ pub fn random_run<W: Write>(tr: &mut Trace<W>, cfg: Cfg, prof: &Profile, seed: u
                 }
                 ("Spawn", json!({"e": e, "comps": comps, "repl": !prof.marks || rng.chance(5, 6)}))
             }
-            8..=11 => ("Despawn", json!({"e": e})),
+            8..=11 => {
+                // clean relation profile: avoid the trigger of known finding F17 (an entity that was the
+                // relation target of a still living entity at the last tick, but is not any more)
+                if prof.rel && prof.clean && f17_trigger(&sim, &parent_at_tick, &e) {
+                    continue;
+                }
+                ("Despawn", json!({"e": e}))
+            }
             12..=14 if prof.marks => (if rng.chance(1, 2) { "Mark" } else { "Unmark" }, json!({"e": e})),
             15..=20 => ("Insert", json!({"e": e, "k": k})),
             21..=25 => ("Remove", json!({"e": e, "k": k})),
@@ -445,7 +480,11 @@ pub fn random_run<W: Write>(tr: &mut Trace<W>, cfg: Cfg, prof: &Profile, seed: u
             }
             _ => continue,
         };
+        let ticked = ev == "SrvFrame" && args["tick"] == json!(true);
         tr.step(&mut sim, ev, args);
+        if ticked {
+            parent_at_tick = current_parents(&sim);
+        }
         if sim.server_panicked || sim.clients.iter().any(|c| c.panicked) {
             break;
         }
